@@ -10,13 +10,13 @@ copies of raw.  post is appended after the *extent* of the parse (the highest cu
 with backward at/shift the final cursor is smaller) and is omitted when the declaration has a
 read-to-end field or a regex delimiter whose match appended bytes could lengthen.
 """
-from .. import common, driver, harness, model, monitors, render, workloads
+from .. import predicates, common, driver, harness, model, monitors, render, workloads
 from ..common import rng_for, b2j
 from ..spec import MARKERS
 
 LEVEL = "exploration"
 SHARDS = {"quick": 1, "thorough": 16}
-REQUIRED = ("families_ending_in_an_odd_width_int", "prefix_cases", "suffix_cases", "failing_cases_shifted", "values_compared", "end_offsets_compared",
+REQUIRED = ("families_with_counted_sequences_of_possibly_empty_elements", "families_ending_in_an_odd_width_int", "prefix_cases", "suffix_cases", "failing_cases_shifted", "values_compared", "end_offsets_compared",
             "raw_slice_equivalence", "hostile_pre_with_delimiters", "nested_families", "moves_under_offset",
             "inputs_of_declarations_with_a_position_before_the_wrapper")
 MIN_NONTRIVIAL = 150
@@ -195,7 +195,12 @@ def run(run):
                     p_class_endianness=0.5, p_move=0.05, p_move_first=0.0, p_rep=0.05, p_opt=0.03, accept=ends_in_an_odd_width_int)
     for bench in itertools.chain(driver.families(run, rng, profile, VARIANTS, nfam, instrument=(), tag="c14"),
                                  driver.families(run, rng, overlap, VARIANTS, nfam // 3, instrument=(), tag="c14o"),
-                                 driver.families(run, rng, tail_int, VARIANTS, nfam // 7, instrument=(), tag="c14t")):
+                                 driver.families(run, rng, tail_int, VARIANTS, nfam // 7, instrument=(), tag="c14t"),
+                                 driver.families(run, rng, dict(profile, accept=predicates.counted_sequence_of_possibly_empty_elements, p_rep=0.4,
+                                                                kinds={"int": 40, "data": 45, "bits": 3, "ref": 8, "sel": 3, "em": 1}),
+                                                 VARIANTS, nfam // 10, instrument=(), tag="c14z")):
+        if predicates.counted_sequence_of_possibly_empty_elements(bench.fam):
+            run.count("families_with_counted_sequences_of_possibly_empty_elements")
         if ends_in_an_odd_width_int(bench.fam):
             run.count("families_ending_in_an_odd_width_int")
         fam = bench.fam
